@@ -247,3 +247,14 @@ impl PairTable {
         }
     }
 }
+
+#[cfg(feature = "verif-hooks")]
+impl PairTable {
+    pub(super) fn verif_lg_size(&self) -> u8 {
+        self.lg_size
+    }
+
+    pub(super) fn verif_num_items(&self) -> u32 {
+        self.num_items
+    }
+}
